@@ -51,6 +51,7 @@ func main() {
 			seed = v
 		}
 	}
+	globalSeed = seed
 	if replay != "" {
 		os.Exit(replayFile(prop, replay))
 	}
@@ -69,4 +70,16 @@ func main() {
 		fn(c)
 	}()
 	os.Exit(c.finish())
+}
+
+// the seed as the specifications see it (CONSTANT Seed): 1 = the default sample; others shift the sampled
+// sub-families of the quick tier
+var globalSeed int64 = 1
+
+func specSeed() int64 {
+	s := globalSeed
+	if s < 1 {
+		s = 1 - s
+	}
+	return 1 + (s-1)%1000
 }
